@@ -47,4 +47,50 @@ def rowOk (ss : Structs) (r : GoRow) : Bool :=
       else if r.mode == "offset" then o == 8 * r.off
       else false
 
+/-! ### The policy-program builder's accesses to `struct cali_tc_state` (decoded from real programs) -/
+
+/-- An access relative to the state pointer, annotated by the builder with the member it means:
+(member path, byte offset, bits).  It must lie inside that member. -/
+def accessInside (ss : Structs) (a : String × Nat × Nat) : Bool :=
+  match findPath ss "cali_tc_state" a.1 with
+  | none => false
+  | some (o, n) => decide (o ≤ 8 * a.2.1) && decide (8 * a.2.1 + a.2.2 ≤ o + n)
+
+/-- What one single-match rule made the builder read: `kind` ∈ cidr | ipset | port | proto, `field` the
+member the rule's leg denotes, `acc` the (byte offset, bits) loads in program order. -/
+structure BuilderMatch where
+  kind : String
+  field : String
+  pfx : Nat
+  acc : List (Nat × Nat)
+deriving Repr
+
+def portFieldOf (ipField : String) : String :=
+  if ipField == "ip_src" then "sport"
+  else if ipField == "pre_nat_ip_dst" then "pre_nat_dport" else "post_nat_dport"
+
+/-- What the match has to read, from the C layout: a CIDR of prefix `p` reads word `k` of the address
+at `field + 4k` for `k < max 1 ⌈p/32⌉` (IPv4: the single word); an IP-set match reads the whole
+address (one 32-bit load, or two 64-bit loads at `field`, `field + 8`), then the leg's port and
+`ip_proto`; a port / protocol match reads exactly that member. -/
+def expectedMatch (v6 : Bool) (ss : Structs) (m : BuilderMatch) : Option (List (Nat × Nat)) :=
+  match findPath ss "cali_tc_state" m.field with
+  | none => none
+  | some (o, n) =>
+    if m.kind == "cidr" then
+      some ((List.range (if v6 then max 1 ((m.pfx + 31) / 32) else 1)).map (fun k => (o / 8 + 4 * k, 32)))
+    else if m.kind == "ipset" then
+      match findPath ss "cali_tc_state" (portFieldOf m.field), findPath ss "cali_tc_state" "ip_proto" with
+      | some (po, _), some (pr, _) =>
+        some ((if v6 then [(o / 8, 64), (o / 8 + 8, 64)] else [(o / 8, 32)]) ++ [(po / 8, 16), (pr / 8, 8)])
+      | _, _ => none
+    else some [(o / 8, n)]
+
+def matchOk (v6 : Bool) (ss : Structs) (m : BuilderMatch) : Bool :=
+  match expectedMatch v6 ss m with
+  | none => false
+  | some e =>
+    if m.kind == "cidr" || m.kind == "ipset" then m.acc == e
+    else !m.acc.isEmpty && m.acc.all (fun a => [a] == e)
+
 end CalicoVerif.C13
